@@ -18,6 +18,7 @@ type Cell struct {
 
 // ExpRow is one expected result row (one group).
 type ExpRow struct {
+	Samples int // rows of the group for which at least one select item was aggregated
 	Key   string
 	Cells []Cell
 	Order float64 // value of the order key (0 if none)
@@ -125,7 +126,7 @@ func EvalQuery(q gen.Q, rows []map[string]string) []ExpRow {
 	var out []ExpRow
 	for _, key := range order {
 		g := groups[key]
-		r := ExpRow{Key: key}
+		r := ExpRow{Key: key, Samples: g.samples}
 		for i, s := range q.Select {
 			var c Cell
 			switch s.Agg {
@@ -163,6 +164,8 @@ func NumTol(x float64) float64 { return 2e-6 + 1e-9*math.Abs(x) }
 // CellMatches reports whether the printed value got matches the expected cell.
 func CellMatches(c Cell, got string) bool {
 	switch c.Kind {
+	case "any":
+		return true
 	case "oneof":
 		return c.OneOf[got]
 	case "count":
@@ -284,6 +287,8 @@ func CheckResult(q gen.Q, exp []ExpRow, got [][]string) string {
 				c := er.Cells[col]
 				var k float64
 				switch c.Kind {
+				case "any":
+					continue
 				case "oneof":
 					// ambiguous: take the best possible reading for 'must be printed' only if single
 					if len(c.OneOf) != 1 {
@@ -305,4 +310,26 @@ func CheckResult(q gen.Q, exp []ExpRow, got [][]string) string {
 		}
 	}
 	return ""
+}
+
+// Structure relaxes expected rows to what is well-defined on any table: the groups that exist
+// (those with at least one aggregated item), their counts and their last/len candidates; sums,
+// minima, maxima and averages become wildcards.
+func Structure(exp []ExpRow) []ExpRow {
+	var out []ExpRow
+	for _, e := range exp {
+		if e.Samples == 0 {
+			continue // nothing aggregated: dtail transmits no data for such a group
+		}
+		r := ExpRow{Key: e.Key, Samples: e.Samples}
+		for _, c := range e.Cells {
+			if c.Kind == "num" {
+				r.Cells = append(r.Cells, Cell{Kind: "any"})
+			} else {
+				r.Cells = append(r.Cells, c)
+			}
+		}
+		out = append(out, r)
+	}
+	return out
 }
